@@ -8,7 +8,14 @@ s = s.replace("//! ", "// ", 3)
 s = s[:s.index("fn main() {")]
 for f in ("run_streams", "run_known", "run_replay"):
     s = s.replace("\nfn %s(" % f, "\npub fn %s(" % f)
-hdr = ("// COPY of harness/src/bin/urlhist.rs (everything but `main`; run_streams / run_known / run_replay made pub)\n"
+# C02 only: the history search does not evaluate the property on steps of the class Known_F_C02_9 (main.rs)
+old = '        "C02" => prop_c02(after),\n        "C03" => prop_c03(after, Some(before))'
+new = ('        "C02" => if super::known_step_c02(before, op) { None } else { prop_c02(after) },\n'
+       '        "C03" => prop_c03(after, Some(before))')
+assert old in s
+s = s.replace(old, new, 1)
+hdr = ("// COPY of harness/src/bin/urlhist.rs (everything but `main`; run_streams / run_known / run_replay made pub;\n"
+       "// the C02 arm of property_on_step skips the class Known_F_C02_9)\n"
        "// so that the C02 bin can run the history streams next to its parse streams.  Keep in sync:\n"
        "//   python3 tools/sync_c02_hist.py\n")
 open(dst, "w").write(hdr + s)
